@@ -7,6 +7,12 @@
                  evaluates the discipline of the operation on the real state (white box: `_last_fork`, `_values`,
                  `auto_fork_type`) and runs the from-scratch oracle after every operation.
 * `gen_history`  grammar of histories (valid stream / malformed stream), generated against the live session.
+
+Scoped fork-mode switches: the operation `["scoped", k, mode, body]` is executed as `with states[k].auto_fork(mode): body`
+through the REAL context manager `State.auto_fork`; the first operation of the body that raises lets its (real) exception
+leave the block and every enclosing block, and the exception is caught by `Session.apply` at top level.  `["look", k]`
+records `auto_fork_type` / `_last_fork`; the same is recorded just inside and just after every block.  `Session.events`
+holds one entry per primitive event in execution order (the trace the Coq model of State/StateScoped.v produces).
 """
 from __future__ import annotations
 
@@ -458,18 +464,70 @@ def probe_of(st):
     return p
 
 
+class BadHandle(Exception):
+    """the harness's handle names no state (model: Err Crash)"""
+
+
+def mode_coq(m):
+    return "None" if m is None else f"(Some {m})"
+
+
+def reference_scope(st, mode):
+    """The documented contract of `State.auto_fork`, written out: the body runs with `auto_fork_type = mode`, and the previous
+    mode is put back whatever happens in the body."""
+    from contextlib import contextmanager
+
+    @contextmanager
+    def cm():
+        previous = st.auto_fork_type
+        st.auto_fork_type = mode
+        try:
+            yield
+        finally:
+            st.auto_fork_type = previous
+    return cm()
+
+
+def shared_storage(a, b):
+    """names of what state `b` (a clone) shares with state `a`: the dictionaries themselves, or tensor objects"""
+    out = []
+    if b._values is a._values:
+        out.append("_values (same dict)")
+    if b._last_fork is not None and b._last_fork is a._last_fork:
+        out.append("_last_fork (same dict)")
+    ids = {id(v): n for n, v in a._values.items() if v is not None}
+    ids.update({id(v): n for n, v in (a._last_fork or {}).items() if v is not None})
+    for where, d in (("_values", b._values), ("_last_fork", b._last_fork or {})):
+        for n, v in d.items():
+            if v is not None and id(v) in ids:
+                out.append(f"{where}[{n}] (same tensor object)")
+    return out
+
+
 class Session:
     """Real states of one graph + bookkeeping.  `fx` says which model the discipline flags are computed for
     (True: the code since 27ac519, an un-forked assignment drops the pending fork; False: the code before, finding F1;
     `detect_setitem_variant()` tells which one the tree under test has)."""
 
-    def __init__(self, G: ToyGraph, fx=False, oracle=True):
+    def __init__(self, G: ToyGraph, fx=False, oracle=True, scope="real"):
         from leaspy.variables.state import State
         if G.dag is None:
             G.build()
         self.G = G
         self.fx = fx
         self.oracle = oracle
+        # how a scoped block is executed: "real" = `with st.auto_fork(mode)` (the context manager under test),
+        # "reference" = the documented contract written out by the harness (set the mode; finally: put the previous one back)
+        self.scope = scope
+        self.event_steps = []         # index of the top-level operation each event belongs to
+        self.block_entries = []       # per executed block: was a fork pending on entry, what was the mode before
+        self.events = []              # (obs, ok) per primitive event: ("out", op, out) | ("seen", k, mode, fork) | ("bad", k)
+        self.has_scoped = False
+        self.scope_violations = []    # a block that did not leave auto_fork_type as it found it
+        self.alias_violations = []    # a clone that shares mutable storage (dicts / tensors) with its source
+        self._raised = None           # the exception on its way out of the enclosing blocks
+        self._last_exc = None
+        self._step = 0
         self.states = [State(G.dag)]
         self.taint = [set()]          # per state: 'unforked' (F1 precondition met), 'mask' (misuse of partial revert)
         self.records = []             # (op, out, ok_flag)
@@ -505,7 +563,9 @@ class Session:
         from leaspy.exceptions import LeaspyInputError
         from leaspy.variables.state import StateForkType
         kind, k = op[0], op[1]
+        self._last_exc = None
         if k >= len(self.states):
+            self._last_exc = BadHandle(k)
             return ("err", "crash")
         st = self.states[k]
         G = self.G
@@ -529,6 +589,9 @@ class Session:
                 return ("done",)
             if kind == "clone":
                 self.states.append(st.clone(disable_auto_fork=bool(op[2]), keep_last_fork=bool(op[3])))
+                shared = shared_storage(st, self.states[-1])
+                if shared:
+                    self.alias_violations.append(dict(step=self._step, source=k, clone=len(self.states) - 1, shared=shared))
                 self.taint.append(set(self.taint[k]))
                 self.after_unforked.append(self.after_unforked[k])
                 self._reverted_after.append(self._reverted_after[k])
@@ -544,12 +607,90 @@ class Session:
                 self.taint[k] = set()
                 return ("done",)
             raise ValueError(f"unknown op {op}")
-        except LeaspyInputError:
+        except LeaspyInputError as e:
+            self._last_exc = e
             return ("err", "input")
-        except Exception:  # noqa: any other exception class
+        except Exception as e:  # noqa: any other exception class
+            self._last_exc = e
             return ("err", "crash")
 
+    # -- histories with scoped blocks
     def apply(self, op):
+        """One top-level element of a history: whatever it raises is caught here (the caller's try/except)."""
+        self._step = len(self.records)
+        rec = self._apply(op)
+        self._raised = None
+        self.records.append(rec)
+        return rec[1]
+
+    def _apply(self, op):
+        if op[0] == "scoped":
+            return self._scoped(op)
+        if op[0] == "look":
+            return self._look(op)
+        return self._prim(op)
+
+    def _seen(self, k):
+        st = self.states[k]
+        mode = None if st.auto_fork_type is None else st.auto_fork_type.name
+        fork = None if st._last_fork is None else [[n, val_json(v)] for n, v in st._last_fork.items()]
+        self._event((("seen", k, mode, fork), True))
+        return mode, fork
+
+    def _event(self, e):
+        self.events.append(e)
+        self.event_steps.append(self._step)
+
+    def _look(self, op):
+        k = op[1]
+        if k >= len(self.states):
+            self._event((("bad", k), True))
+            self._raised = BadHandle(k)
+            return (op, ("err", "crash"), True)
+        self._raised = None
+        mode, fork = self._seen(k)
+        return (op, ("seen", mode, fork), True)
+
+    def _scope_cm(self, st, mode):
+        if self.scope == "real":
+            return st.auto_fork(mode)
+        return reference_scope(st, mode)
+
+    def _scoped(self, op):
+        """`with states[k].auto_fork(mode): body` — the real exception of the first failing operation travels through the
+        real context manager(s); recorded: the bookkeeping just inside the block and just after it."""
+        from leaspy.variables.state import StateForkType
+        _, k, m, body = op
+        self.has_scoped = True
+        if k >= len(self.states):
+            self._event((("bad", k), True))
+            self._raised = BadHandle(k)
+            return (op, ("block", True, []), True)
+        st = self.states[k]
+        before = st.auto_fork_type
+        self.block_entries.append(dict(step=self._step, state=k, fork_pending=st._last_fork is not None,
+                                       previous=None if before is None else before.name))
+        inner = []
+        exc = None
+        self._raised = None
+        try:
+            with self._scope_cm(st, None if m is None else StateForkType[m]):
+                self._seen(k)
+                for o in body:
+                    inner.append(self._apply(o))
+                    if self._raised is not None:
+                        raise self._raised
+        except Exception as e:  # noqa: the exception that left the block
+            exc = e
+        self._seen(k)
+        if st.auto_fork_type is not before:
+            self.scope_violations.append(dict(step=self._step, state=k, block_mode=m, raised=exc is not None,
+                                              expected=None if before is None else before.name,
+                                              observed=None if st.auto_fork_type is None else st.auto_fork_type.name))
+        self._raised = exc
+        return (op, ("block", exc is not None, inner), True)
+
+    def _prim(self, op):
         ok = self.op_ok(op)
         k = op[1]
         n_before = len(self.states)
@@ -571,21 +712,22 @@ class Session:
             over_pending = st.auto_fork_type is None and st._last_fork is not None
             forked = st.auto_fork_type is not None
         out = self.execute(op)
-        self.records.append((op, out, ok))
+        self._raised = self._last_exc if out[0] == "err" else None
+        self._event((("out", op, out), ok))
         if k < n_before:
-            step = len(self.records) - 1
+            step = self._step
             if op[0] in ("set", "put") and out == ("done",):
                 if over_pending:
                     self.after_unforked[k] = True
                     self._reverted_after[k] = False
-                    self.f1_events.append(dict(kind="unforked-set-over-pending-fork", step=step, state=k, out=list(out)))
+                    self.f1_events.append(dict(kind="unforked-set-over-pending-fork", step=step, state=k, out=list(out), op=op[0]))
                 elif forked:
                     self.after_unforked[k] = self._reverted_after[k] = False
             elif op[0] in ("revert", "revmask") and self.after_unforked[k]:
                 self._reverted_after[k] = True
-                self.f1_events.append(dict(kind="revert-after", step=step, state=k, out=list(out)))
+                self.f1_events.append(dict(kind="revert-after", step=step, state=k, out=list(out), op=op[0]))
             elif op[0] == "get" and self._reverted_after[k]:
-                self.f1_events.append(dict(kind="read-after-revert", step=step, state=k, out=[out[0]]))
+                self.f1_events.append(dict(kind="read-after-revert", step=step, state=k, out=[out[0]], op=op[0]))
             elif op[0] == "clear":
                 self.after_unforked[k] = self._reverted_after[k] = False
         if self.oracle:
@@ -593,8 +735,8 @@ class Session:
             if len(self.states) > n_before:
                 touched.append(len(self.states) - 1)
             for j in touched:
-                self.check_fresh(j, len(self.records) - 1)
-        return out
+                self.check_fresh(j, self._step)
+        return (op, out, ok)
 
     # -- the oracle: every read of (a deep copy of) the state equals the read of a fresh state holding the same
     #    independent values, bit for bit
@@ -658,15 +800,61 @@ class Session:
         raise ValueError(op)
 
     def coq_case(self):
+        """plain histories only (no scoped block, no look): the case of `StateExec.check_case_with`"""
+        assert not any(op[0] in ("scoped", "look") for op, _, _ in self.records)
         h = ";\n    ".join(f"({self.op_coq(op)}, {out_coq(out)}, {'true' if ok else 'false'})" for op, out, ok in self.records)
         return f"({self.G.coq()},\n   [{h}])"
 
+    def sop_coq(self, op):
+        if op[0] == "scoped":
+            return f"SScoped {op[1]} {mode_coq(op[2])} (blk [{'; '.join(self.sop_coq(o) for o in op[3])}])"
+        if op[0] == "look":
+            return f"SLook {op[1]}"
+        return f"SPlain ({self.op_coq(op)})"
 
-def run_ops(G, ops, fx=False, oracle=True):
-    s = Session(G, fx=fx, oracle=oracle)
+    def obs_coq(self, obs):
+        if obs[0] == "out":
+            return f"XOut {out_coq(obs[2])}"
+        if obs[0] == "bad":
+            return f"XBad {obs[1]}"
+        _, k, mode, fork = obs
+        if fork is None:
+            fk = "None"
+        else:
+            fk = "(Some [" + "; ".join(f"({self.G.ix(n)}, {'None' if v is None else '(Some ' + val_coq(v) + ')'})" for n, v in fork) + "])"
+        return f"XSeen {k} {mode_coq(mode)} {fk}"
+
+    def coq_scase(self):
+        """the case of `StateScopedExec.check_scase_with`: graph, history with scoped blocks, one entry per primitive event"""
+        h = ";\n    ".join(self.sop_coq(op) for op, _, _ in self.records)
+        ev = ";\n    ".join(f"({self.obs_coq(obs)}, {'true' if ok else 'false'})" for obs, ok in self.events)
+        return f"({self.G.coq()},\n   [{h}],\n   [{ev}])"
+
+    def events_json(self):
+        return [[list(obs) if obs[0] != "out" else ["out", obs[1], list(obs[2])], ok] for obs, ok in self.events]
+
+
+def run_ops(G, ops, fx=False, oracle=True, scope="real"):
+    s = Session(G, fx=fx, oracle=oracle, scope=scope)
     for op in ops:
         s.apply(op)
     return s
+
+
+def flat_ops(ops):
+    """every operation of a history, the bodies of scoped blocks included (a block itself comes before its body)"""
+    for op in ops:
+        yield op
+        if op[0] == "scoped":
+            yield from flat_ops(op[3])
+
+
+def flat_records(records):
+    """every primitive record (op, out, ok), bodies of scoped blocks included; blocks are yielded as ("scoped", ..) too"""
+    for op, out, ok in records:
+        yield op, out, ok
+        if op[0] == "scoped":
+            yield from flat_records(out[2])
 
 
 # ----------------------------------------------------------------------------- history grammar
@@ -687,8 +875,10 @@ def rand_value(rng, G, name, small=False):
     return one() if (nf and rng.random() < 0.3) else rng.randint(lo, hi)
 
 
-def gen_history(rng, G, malformed=False, length=None, max_states=3, fx=False):
-    """Generate (and execute) one history against live states.  Returns the Session.  `fx`: see Session."""
+def gen_history(rng, G, malformed=False, length=None, max_states=3, fx=False, scoped=True):
+    """Generate (and execute) one history against live states.  Returns the Session.  `fx`: see Session.
+    `scoped`: 7% of the steps are `with auto_fork(m)` blocks (nested up to 3 deep, 60% of them left by an exception)
+    followed by an assignment, reads, a revert and reads."""
     s = Session(G, fx=fx)
     length = length or rng.randint(1, 40)
     sett = G.settable()
@@ -707,9 +897,99 @@ def gen_history(rng, G, malformed=False, length=None, max_states=3, fx=False):
     for n in sett:
         if rng.random() < p_init:
             s.apply(["set", 0, n, rand_value(rng, G, n)])
+    def raiser(k):
+        """one operation that raises: unknown name, non-settable assignment, read of a variable whose ancestor is unset,
+        accumulating put on an unset variable, revert without fork, index out of range (IndexError: the crash class)"""
+        st = s.states[k]
+        cands = [[["get", k, UNKNOWN]], [["set", k, UNKNOWN, 1]], [["isset", k, UNKNOWN]]]
+        if non_sett:
+            n = rng.choice(non_sett)
+            cands.append([["set", k, n, rand_value(rng, G, n)]])
+        if sett:
+            n = rng.choice(sett)
+            kids = [c for c in G.dag.sorted_children[n]]
+            if kids:
+                cands.append([["set", k, n, None], ["get", k, rng.choice(kids)]])
+            cands.append([["set", k, n, None], ["put", k, n, None, rand_value(rng, G, n, True), True]])
+            cands.append([["put", k, n, rng.choice([G.n_ind, G.n_ind + 2]), rng.randint(-3, 3), rng.random() < 0.5]])
+            # an un-forked assignment drops the fork, the revert that follows is refused (only inside auto_fork(None))
+            cands.append([["mode", k, None], ["set", k, n, rand_value(rng, G, n)], ["revert", k]])
+        if st._last_fork is None:
+            cands.append([["revert", k]])
+        return rng.choice(cands)
+
+    def gen_body(k, depth):
+        body = []
+        cloned = False
+        for _ in range(rng.randint(0, 4)):
+            kk = k if rng.random() < 0.85 else pick_state()
+            c = rng.random()
+            if c < 0.25:
+                body.append(["get", kk, rng.choice(names)])
+            elif c < 0.47 and sett:
+                n = rng.choice(sett)
+                body.append(["set", kk, n, rand_value(rng, G, n)])
+            elif c < 0.58 and sett:
+                n = rng.choice(sett)
+                if s.states[kk]._values[n] is not None:
+                    body.append(["put", kk, n, None, rand_value(rng, G, n, True), True])
+            elif c < 0.66:
+                body.append(["revert", kk])
+            elif c < 0.74:
+                body.append(["look", kk])
+            elif c < 0.84 and depth < 2:
+                body.append(["scoped", kk, rng.choice([None, "REF", "COPY", None]), gen_body(kk, depth + 1)])
+            elif c < 0.89:
+                body.append(["mode", kk, rng.choice(["REF", "COPY", None])])     # overwritten when the block is left
+            elif c < 0.93 and not cloned and len(s.states) < max_states and depth == 0:
+                body.append(["clone", kk, rng.random() < 0.3, rng.random() < 0.5])
+                cloned = True
+            elif c < 0.96:
+                body.append(["precompute", kk])
+        if rng.random() < (0.6 if depth == 0 else 0.3):
+            pos = len(body) if rng.random() < 0.6 else rng.randint(0, len(body))
+            body[pos:pos] = raiser(k)
+        return body
+
+    def scoped_shape(k):
+        """a fork is pending; `with auto_fork(m)` whose body (often) raises; then — the exception caught — an assignment,
+        reads, the decision (full or per-individual revert), reads: what a sampler does after a failed block"""
+        st = s.states[k]
+        if sett and st.auto_fork_type is not None and rng.random() < 0.7:
+            n = rng.choice(sett)
+            if st._values[n] is not None:
+                s.apply(["put", k, n, None, rand_value(rng, G, n, True), True])
+            else:
+                s.apply(["set", k, n, rand_value(rng, G, n)])
+        s.apply(["scoped", k, rng.choice([None, None, None, "REF", "COPY"]), gen_body(k, 0)])
+        if rng.random() < 0.4:
+            s.apply(["look", k])
+        if not sett:
+            return
+        n = rng.choice(sett)
+        ind = G.by_name[n]["kind"] == "ind"
+        if st._values[n] is None or rng.random() < 0.4:
+            s.apply(["set", k, n, rand_value(rng, G, n)])
+        else:
+            s.apply(["put", k, n, None, rand_value(rng, G, n, True), True])
+        readable = [m for m in names if G.axis(m)] if ind else names
+        for _ in range(rng.randint(0, 2)):
+            if readable:
+                s.apply(["get", k, rng.choice(readable)])
+        d = rng.random()
+        if d < 0.5 or (d < 0.6 and not fork_pending(k)):
+            s.apply(["revert", k])
+        elif d < 0.8 and ind and fork_pending(k):
+            s.apply(["revmask", k, [rng.random() < 0.5 for _ in range(G.n_ind)]])
+        for _ in range(rng.randint(1, 2)):
+            s.apply(["get", k, rng.choice(names)])
+
     while len(s.records) < length:
         k = pick_state()
         st = s.states[k]
+        if scoped and rng.random() < 0.07:
+            scoped_shape(k)
+            continue
         r = rng.random()
         if malformed and r < 0.22:
             c = rng.randrange(8)
@@ -817,7 +1097,7 @@ def nontrivial(ops):
     """a read after a second assignment to the same state, a revert or a clone"""
     sets = {}
     seen = False
-    for op in ops:
+    for op in flat_ops(ops):
         if op[0] in ("set", "put"):
             sets[op[1]] = sets.get(op[1], 0) + 1
         if op[0] in ("revert", "revmask", "clone"):
@@ -827,20 +1107,33 @@ def nontrivial(ops):
     return False
 
 
+def _variants(op):
+    """smaller versions of one operation: a scoped block with one operation of its body removed / shrunk"""
+    if op[0] != "scoped":
+        return
+    body = op[3]
+    for j in range(len(body) - 1, -1, -1):
+        yield [op[0], op[1], op[2], body[:j] + body[j + 1:]]
+        for v in _variants(body[j]):
+            yield [op[0], op[1], op[2], body[:j] + [v] + body[j + 1:]]
+
+
 def shrink(G, ops, still_fails, max_rounds=6):
-    """Delete operations one at a time while `still_fails(ops)` holds."""
+    """Delete operations one at a time (also inside scoped blocks) while `still_fails(ops)` holds."""
     ops = list(ops)
     for _ in range(max_rounds):
         changed = False
         i = len(ops) - 1
         while i >= 0:
-            cand = ops[:i] + ops[i + 1:]
-            try:
-                if cand and still_fails(cand):
-                    ops = cand
-                    changed = True
-            except Exception:  # noqa
-                pass
+            cands = [ops[:i] + ops[i + 1:]] + [ops[:i] + [v] + ops[i + 1:] for v in _variants(ops[i])]
+            for cand in cands:
+                try:
+                    if cand and still_fails(cand):
+                        ops = cand
+                        changed = True
+                        break
+                except Exception:  # noqa
+                    pass
             i -= 1
         if not changed:
             break
